@@ -156,6 +156,10 @@ def identify_missing_sections(existing_config: dict, all_sections: list[str]) ->
     """
     # Section names may be spelled with hyphens or underscores (both are accepted on load)
     present = {str(key).replace("_", "-") for key in existing_config}
+    # File-placement rules may sit at the top level (legacy layout); an added
+    # "file-placement:" section would shadow them
+    if present & {"directories", "global-deny", "global-patterns"}:
+        present.add("file-placement")
     return [s for s in all_sections if s.replace("_", "-") not in present]
 
 
